@@ -8,6 +8,7 @@ generator is pushed unconditionally, the count advances exactly for truthy items
 is yielded before the buffer is cleared, the only return is on an exhausted generator with
 an empty count; dump writes every item (encoded or not).
 Also: enable_buffering installs the chunking iterator on every call and the stream is its own iterator.  
+Also: make_module / make_module_async hand the caller's vars unchanged to new_context.  
 Not decided: exact chunk boundaries over all piece sequences.
 """
 
